@@ -236,6 +236,10 @@ func c17GenMQTT(rng *sim.Rand, sc *c17Scenario) {
 	nt := rng.Range(2, 6)
 	uniq := 0
 	cleanP := float64(rng.Pick(0, 0, 0, 20, 50)) / 100
+	// CleanSession connections either get an id of their own or (cleanPool) an
+	// id of the pool: then they take over / are taken over, and the delete-watch
+	// echo of their session's removal can hit a later connection of the id
+	cleanPool := rng.Bool(0.4)
 	abortP := float64(rng.Pick(0, 5, 5, 15)) / 100
 	lingerP := 0.30
 	if withDel {
@@ -251,10 +255,11 @@ func c17GenMQTT(rng *sim.Rand, sc *c17Scenario) {
 			}
 			op.ID = fmt.Sprintf("c%d", rng.Intn(pool))
 			if rng.Bool(cleanP) {
-				// CleanSession only with an id that is used once (see header)
-				uniq++
-				op.ID = fmt.Sprintf("u%d", uniq)
 				op.Clean = true
+				if !cleanPool {
+					uniq++
+					op.ID = fmt.Sprintf("u%d", uniq)
+				}
 			}
 			switch x := rng.Float64(); {
 			case x < abortP:
